@@ -1,14 +1,14 @@
 SPECIFICATION Spec
 CONSTANTS
-  WorkerCpus <- A_Workers
-  Menu <- A_Menu
-  Classes <- A_Classes
+  WorkerCpus <- C_Workers
+  Menu <- C_Menu
+  Classes <- C_Classes
   MaxLosses = 1
   MaxCancels = 1
   MaxFails = 1
   MaxLaunchFails = 0
   PfReserve = 0
-  PfMax = 1
+  PfMax = 2
   Eager = TRUE
 CHECK_DEADLOCK FALSE
 INVARIANTS
